@@ -371,8 +371,8 @@ func init() {
 					}
 					s2, _ := ser()
 					ser0 = s2
+					break
 				}
-				break
 			}
 		}
 
